@@ -1042,11 +1042,32 @@ def must_derive(body, local, is_src, extra_transparent=(), allow_partial=False, 
 
 
 # ------------------------------------------------------------------ symbolic boolean / scalar expressions
+def mut_borrowed(body):
+    """locals whose address is taken mutably (`&mut l`, `&raw mut l`, also of a field/element of l)"""
+    if getattr(body, '_mutb', None) is None:
+        m = set()
+        for b in body.blocks:
+            for s in b.stmts:
+                if s.kind == 'assign' and s.rv.r in ('ref', 'rawptr') and s.rv.j.get('mut'):
+                    pl = s.rv.place
+                    if not pl[1] or pl[1][0] != ('deref',):
+                        m.add(pl[0])
+        body._mutb = m
+    return body._mutb
+
+
 def unique_def(body, local):
-    ds = [d for d in body.defs.get(local, []) if not (d[2] == 'assign' and d[3].place[1])]
-    if len(ds) == 1:
-        return ds[0]
-    return None
+    """the single whole-local definition of `local`, or None. A scalar / array local whose address is taken mutably may be rewritten
+    through the reference and therefore has no unique definition."""
+    ds = body.defs.get(local, [])
+    whole = [d for d in ds if not (d[2] == 'assign' and d[3].place[1])]
+    if len(whole) != 1:
+        return None
+    if len(whole) != len(ds) and is_data_type(body.lty(local)):
+        return None   # partially overwritten (field / element stores)
+    if local in mut_borrowed(body) and is_data_type(body.lty(local)):
+        return None
+    return whole[0]
 
 
 def expr_of(body, op, depth=0):
